@@ -29,7 +29,10 @@ RULE = ("Regressors: 4-15 samples, X of order 2-4 including the sample mode (sid
         "CP_PLSR: X order 2-4, Y vector or matrix (1-3 columns), 1-3 components limited to min(n_samples-1, #features) "
         "(more cannot be supported by the centred data), Gaussian data for the metamorphic relations, shifts k/4 in [-8,8]; "
         "fits with non-finite loadings are discarded and counted. Tolerances: direct relations rel 1e-9 of the stated scale, "
-        "metamorphic relations rel 1e-7. Non-trivial: >= 2 components/rank or tensor-valued y or X order >= 3; distinct = "
+        "metamorphic relations rel 1e-7. History sub-checks: one estimator object, 2-6 generated operations (fit on data "
+        "set A / B with the same or other shapes, predict on training / fresh / the previous input, PLSR transform), every "
+        "result compared with the contraction with the currently exposed weights and with a fresh estimator fitted on the "
+        "current data only (non-trivial there: use -> re-fit on the other data set -> use). Non-trivial: >= 2 components/rank or tensor-valued y or X order >= 3; distinct = "
         "distinct case hash.")
 ASSUMPTIONS = ["NumPy einsum / linalg are correct", "Hypothesis generates what its strategies describe",
                "CP_PLSR is a deterministic function of its inputs (SVD initialisation, no random draws)"]
@@ -388,6 +391,221 @@ def o_plsr_perm(case):
 
 
 # ----------------------------------------------------------------------------
+# histories on ONE estimator object: results depend only on the latest fit
+# ----------------------------------------------------------------------------
+_PRED_OPS = ["predict_train", "predict_fresh", "predict_again"]
+
+
+@st.composite
+def _ops(draw, extra=()):
+    """['fit:A' | 'fit:B' | predict_* | transform*] starting with a fit; half of the cases are forced to
+    contain fit -> use -> re-fit on the other data set -> use"""
+    uses = _PRED_OPS + list(extra)
+    first = draw(st.sampled_from(["A", "B"]))
+    other = "B" if first == "A" else "A"
+    if draw(st.sampled_from([True, True, True, False])):
+        ops = ["fit:" + first, draw(st.sampled_from(uses)), "fit:" + other, draw(st.sampled_from(uses))]
+        ops += draw(st.lists(st.sampled_from(uses + ["fit:A", "fit:B"]), min_size=0, max_size=2))
+    else:
+        ops = ["fit:" + first] + draw(st.lists(st.sampled_from(uses + ["fit:A", "fit:B"]), min_size=1, max_size=5))
+    return ops
+
+
+def _refit_used(ops):
+    """the history contains use -> fit on a different data set -> use"""
+    cur, used_since, seen = None, False, False
+    armed = False
+    for op in ops:
+        if op.startswith("fit:"):
+            if cur is not None and op[4:] != cur and used_since:
+                armed = True
+            cur, used_since = op[4:], False
+        else:
+            used_since = True
+            if armed:
+                seen = True
+    return seen
+
+
+@st.composite
+def _reg_hist_case(draw, est, tier):
+    def dataset(order=None, nout=None):
+        o = order or draw(st.integers(3 if est == "tucker" else 2, 4))
+        sides = draw(st.lists(st.integers(2, 4), min_size=o - 1, max_size=o - 1))
+        if est == "tucker":
+            out = []
+        else:
+            k = nout if nout is not None else draw(st.integers(0 if o >= 3 else 1, 2))
+            if o == 2 and k == 0:
+                k = 1
+            out = [draw(st.integers(1, 3)) for _ in range(k)]
+        return {"n": draw(st.integers(4, 12)), "sides": sides, "out": out, "seed": draw(gen.seeds),
+                "xkind": draw(st.sampled_from(["normal", "int"])), "ykind": draw(st.sampled_from(["random", "model"])),
+                "n_new": draw(st.integers(1, 4))}
+    A = dataset()
+    same = draw(st.sampled_from(["same_shape", "same_shape", "other_shape"]))
+    if same == "same_shape":
+        B = dict(A, seed=draw(gen.seeds), ykind=draw(st.sampled_from(["random", "model"])))
+    elif est == "tucker":
+        B = dataset(order=len(A["sides"]) + 1)       # weight_ranks fixes the number of modes
+    else:
+        B = dataset()
+    c = {"A": A, "B": B, "shapes": same, "ops": draw(_ops()), "reg": draw(st.sampled_from([1e-3, 0.5, 1, 10])),
+         "iters": draw(st.sampled_from([1, 3, 10])), "seed": draw(st.integers(0, 10 ** 4))}
+    if est == "cp":
+        c["rank"] = draw(st.integers(1, 3))
+    else:
+        c["ranks"] = [draw(st.integers(1, 2)) for _ in A["sides"]]
+    return c
+
+
+def _reg_dataset(d):
+    n, sides, out = d["n"], tuple(d["sides"]), tuple(d["out"])
+    X = _data(d["seed"], (n,) + sides, d["xkind"])
+    rs = np.random.RandomState((d["seed"] + 11) % (2 ** 32))
+    if d["ykind"] == "model":
+        y = contract(X, rs.standard_normal(sides + out)) + 0.1 * rs.standard_normal((n,) + out)
+    else:
+        y = rs.standard_normal((n,) + out)
+    return X, y, _data(d["seed"] + 5, (d["n_new"],) + sides, "normal")
+
+
+def _new_reg(est, case):
+    kw = {"reg_W": case["reg"], "n_iter_max": case["iters"], "verbose": 0, "random_state": case["seed"]}
+    return CPRegressor(weight_rank=case["rank"], **kw) if est == "cp" else TuckerRegressor(weight_ranks=list(case["ranks"]), **kw)
+
+
+def _exposed_dense(est, e, wshape, tag):
+    """dense weights rebuilt from the exposed factor form, after checking weight_tensor_ and vec_W_ against it"""
+    W = finite(assert_shape(e.weight_tensor_, wshape, f"{tag}/weight_tensor_/shape"), f"{tag}/weight_tensor_/finite")
+    if est == "cp":
+        weights, factors = e.cp_weight_[0], e.cp_weight_[1]
+        facs = [as_array(f, f"{tag}/cp_weight_") for f in factors]
+        dense = ref.cp_dense(None if weights is None else as_array(weights, f"{tag}/cp_weight_"), facs)
+        scale = float(np.max(ref.cp_dense(None if weights is None else np.abs(weights), [np.abs(f) for f in facs])))
+    else:
+        core, factors = e.tucker_weight_[0], e.tucker_weight_[1]
+        facs = [as_array(f, f"{tag}/tucker_weight_") for f in factors]
+        dense = ref.tucker_dense(as_array(core, f"{tag}/tucker_weight_"), facs)
+        scale = float(np.max(ref.tucker_dense(np.abs(core), [np.abs(f) for f in facs])))
+    close(W, dense, f"{tag}/weight_tensor_/equals-factor-form", rel=REL, scale=scale)
+    close(e.vec_W_, dense.reshape(-1), f"{tag}/vec_W_/equals-vectorised-weights", rel=REL, scale=scale)
+    return W
+
+
+def o_reg_history(est):
+    def oracle(case):
+        data = {"A": _reg_dataset(case["A"]), "B": _reg_dataset(case["B"])}
+        e = _new_reg(est, case)
+        cur, last = None, None
+        for k, op in enumerate(case["ops"]):
+            tag = f"{est}/history/{op.replace(':', '_')}"
+            if op.startswith("fit:"):
+                cur = op[4:]
+                X, y, Xnew = data[cur]
+                e.fit(X.copy(), y.copy())
+                last = None
+                continue
+            X, y, Xnew = data[cur]
+            d = case[cur]
+            wshape = tuple(d["sides"]) + tuple(d["out"])
+            if op == "predict_again" and last is not None:
+                A = last
+            else:
+                A = Xnew if op == "predict_fresh" else X
+            last = A
+            W = _exposed_dense(est, e, wshape, tag)
+            got = e.predict(A.copy())
+            close(got, contract(A, W), f"{tag}/equals-contraction-with-exposed-weights", rel=REL, scale=contract_scale(A, W))
+            # depends only on the latest fit: a fresh estimator with the same parameters agrees
+            f = _new_reg(est, case)
+            f.fit(X.copy(), y.copy())
+            close(got, f.predict(A.copy()), f"{tag}/equals-fresh-estimator", rel=MREL, scale=contract_scale(A, W))
+        return {"nontrivial": _refit_used(case["ops"]),
+                "labels": [f"shapes={case['shapes']}", f"n_ops={len(case['ops'])}", f"refit_used={_refit_used(case['ops'])}"]}
+    return oracle
+
+
+@st.composite
+def _plsr_hist_case(draw, tier):
+    def dataset(order=None, p="draw"):
+        o = order or draw(st.integers(2, 4))
+        sides = draw(st.lists(st.integers(2, 4), min_size=o - 1, max_size=o - 1))
+        return {"n": draw(st.integers(5, 12)), "sides": sides, "seed": draw(gen.seeds),
+                "p": draw(st.sampled_from([None, 1, 2, 3])) if p == "draw" else p,
+                "ykind": draw(st.sampled_from(["random", "model"])), "xkind": "normal", "n_new": draw(st.integers(1, 4))}
+    A = dataset()
+    same = draw(st.sampled_from(["same_shape", "same_shape", "other_shape"]))
+    B = dict(A, seed=draw(gen.seeds)) if same == "same_shape" else dataset()
+    sup = min(min(d["n"] - 1, gen.prod(d["sides"])) for d in (A, B))
+    return {"A": A, "B": B, "shapes": same, "ops": draw(_ops(extra=["transform_train", "transform_fresh", "transform_xy"])),
+            "ncomp": draw(st.integers(1, min(3, sup))), "iters": draw(st.sampled_from([None, None, 3]))}
+
+
+def ref_yscores(Yc, T, coef, Q):
+    """Y scores by projection on the Y loadings and deflation with the X scores (transform docstring / fit)"""
+    Yc = np.array(Yc, dtype=float)
+    c = Q.shape[1]
+    S = np.zeros((Yc.shape[0], c))
+    for k in range(c):
+        S[:, k] = Yc @ Q[:, k]
+        Yc = Yc - np.outer(T @ coef[:, k], Q[:, k])
+    return S
+
+
+def o_plsr_history(case):
+    data = {}
+    for key in ("A", "B"):
+        d = dict(case[key], ncomp=case["ncomp"], iters=case["iters"])
+        data[key] = (d,) + _plsr_data(d)
+    kw = {} if case["iters"] is None else {"n_iter_max": case["iters"]}
+    e = CP_PLSR(case["ncomp"], **kw)
+    cur, last = None, None
+    for op in case["ops"]:
+        tag = f"plsr/history/{op.replace(':', '_')}"
+        if op.startswith("fit:"):
+            cur = op[4:]
+            d, X, Y, Xnew = data[cur]
+            e.fit(X.copy(), Y.copy())
+            last = None
+            continue
+        d, X, Y, Xnew = data[cur]
+        XF, YF, coef, xm, ym = _plsr_attrs(e, d, tag, X=X)
+        p = 1 if d["p"] is None else d["p"]
+        if op == "predict_again" and last is not None:
+            A = last
+        else:
+            A = Xnew if op in ("predict_fresh", "transform_fresh") else X
+        last = A
+        T = ref_scores(A - xm, XF[1:])
+        sx = max(float(np.max(np.abs(T))), 1e-300)
+        f = CP_PLSR(case["ncomp"], **kw)
+        f.fit(X.copy(), Y.copy())
+        if op.startswith("predict"):
+            want = T @ coef @ YF[1].T + ym
+            sc = float(np.max(np.abs(T) @ np.abs(coef) @ np.abs(YF[1].T))) + float(np.max(np.abs(ym)))
+            got = assert_shape(e.predict(A.copy()), (A.shape[0], p), f"{tag}/shape")
+            close(got, want, f"{tag}/equals-exposed-attributes", rel=REL, scale=sc)
+            close(got, f.predict(A.copy()), f"{tag}/equals-fresh-estimator", rel=MREL, scale=sc)
+        elif op == "transform_xy":
+            both = e.transform(X.copy(), Y.copy())
+            check(isinstance(both, tuple) and len(both) == 2, f"{tag}/arity", "expected (X_scores, Y_scores)")
+            sy = max(float(np.max(np.abs(YF[0]))), sx * float(np.max(np.abs(coef))), 1e-300)
+            close(both[0], XF[0], f"{tag}/X_scores==X_factors[0]", rel=REL, scale=max(float(np.max(np.abs(XF[0]))), 1e-300))
+            close(both[1], YF[0], f"{tag}/Y_scores==Y_factors[0]", rel=REL, scale=sy)
+            Tt = ref_scores(X - xm, XF[1:])
+            close(both[1], ref_yscores(Y.reshape(len(Y), -1) - ym, Tt, coef, YF[1]), f"{tag}/Y_scores-from-exposed-attributes", rel=REL, scale=sy)
+        else:
+            got = e.transform(A.copy())
+            close(got, T, f"{tag}/equals-exposed-attributes", rel=REL, scale=sx)
+            close(got, f.transform(A.copy()), f"{tag}/equals-fresh-estimator", rel=MREL, scale=sx)
+            if op == "transform_train":
+                close(got, XF[0], f"{tag}/==X_factors[0]", rel=REL, scale=max(float(np.max(np.abs(XF[0]))), 1e-300))
+    return {"nontrivial": _refit_used(case["ops"]),
+            "labels": [f"shapes={case['shapes']}", f"n_ops={len(case['ops'])}", f"refit_used={_refit_used(case['ops'])}", f"ncomp={case['ncomp']}"]}
+
+
+# ----------------------------------------------------------------------------
 def subchecks(tier):
     subs = []
     for yk in ("scalar", "vector", "tensor"):
@@ -401,4 +619,7 @@ def subchecks(tier):
         subs.append(SubCheck(f"plsr/{yk}/exposed", _plsr_case(yk, tier), o_plsr_exposed, quick=400, thorough=3000))
         subs.append(SubCheck(f"plsr/{yk}/shift", _plsr_case(yk, tier, metamorphic=True), o_plsr_shift, quick=400, thorough=3000))
         subs.append(SubCheck(f"plsr/{yk}/permutation", _plsr_case(yk, tier, metamorphic=True), o_plsr_perm, quick=400, thorough=3000))
+    subs.append(SubCheck("cp/history", _reg_hist_case("cp", tier), o_reg_history("cp"), quick=400, thorough=3000))
+    subs.append(SubCheck("tucker/history", _reg_hist_case("tucker", tier), o_reg_history("tucker"), quick=400, thorough=3000))
+    subs.append(SubCheck("plsr/history", _plsr_hist_case(tier), o_plsr_history, quick=400, thorough=3000))
     return subs
